@@ -222,17 +222,33 @@ def pair_task(arg):
                 bs.append((b, rb, o[1]))
             elif ia == 0:
                 stats["unbuildable"] += 1       # the construction part reports it as a violation
-    for ra in range(len(RELS)):
-        o = observe(build_operand, a, ra)
+    universe = spans_of(points)
+
+    def derived_operand(content, ri):
+        """the test-suite's own idiom for getting a set with another relation: query the source set, copy() it and
+        re-assign eq_relation (the copy must answer with ITS relation, whatever the source was asked before)"""
+        src = build_operand(content, (ri + 1) % len(RELS))
+        for x in universe:
+            x in src
+        t = src.copy()
+        t.eq_relation = rel_obj(ri)
+        return t
+
+    for ra, mode in [(ra, mode) for ra in range(len(RELS)) for mode in ("natural", "copy+eq_relation")]:
+        o = observe(build_operand if mode == "natural" else derived_operand, a, ra)
         if o[0] != "ok" or not holds(o[1], a):
             continue
         A = o[1]
+        stats["operand_modes"] = stats.get("operand_modes", 0) + 1
         for b, rb, B in bs:
-            def emit(op, kind, text, a=a, ra=ra, b=b, rb=rb):
+            def emit(op, kind, text, a=a, ra=ra, b=b, rb=rb, mode=mode):
+                how = "" if mode == "natural" else (
+                    "; A obtained as: S = <A's spans with relation %s>; [x in S for x in all spans]; A = S.copy(); "
+                    "A.eq_relation = %s()" % (RELS[(ra + 1) % len(RELS)][0], RELS[ra][2]))
                 r.violation({"spec": "SpanSet", "part": "operator", "op": op, "kind": kind},
-                            "%s  [A=%r/%s, B=%r/%s]" % (text, list(a), RELS[ra][0], list(b), RELS[rb][0]),
+                            "%s  [A=%r/%s, B=%r/%s%s]" % (text, list(a), RELS[ra][0], list(b), RELS[rb][0], how),
                             {"engine": "input-enum", "part": "operator", "op": op, "A": a, "relA": RELS[ra][0],
-                             "B": b, "relB": RELS[rb][0], "snippet": snippet(a, ra, b, rb, op)})
+                             "B": b, "relB": RELS[rb][0], "operand_mode": mode, "snippet": snippet(a, ra, b, rb, op)})
             stats["evaluations"] += judge_pair(A, a, ra, B, b, rb, emit, stats)
             stats["pairs"] += 1
         if not holds(A, a):
